@@ -81,7 +81,7 @@ Theorem C10_own_live_target_ctor_noop fixed w k j u o :
 Proof. exact (live_target_ctor_noop fixed w k j u o). Qed.
 Print Assumptions C10_own_live_target_ctor_noop.
 
-(* HISTORICAL (before /repo 9a9c4a3, finding fixed): operator=(const crs&) left own_data
+(* HISTORICAL (before /repo b0b02bf, finding fixed): operator=(const crs&) left own_data
    untouched; copy-assigning into a zero-copy view leaked the three new arrays.  Witness:
    [NewView 0 u; NewOwn 1; CopyAssign 0 1; Destroy 0; Destroy 1] *)
 Theorem C10_own_copy_assign_old_leaks_refuted :
@@ -138,7 +138,7 @@ Theorem C10_junk_spai0_apply_x (S : Scalar) (M rhs x1 x2 : vec S) :
 Proof. exact (spai0_apply_x_independent M rhs x1 x2). Qed.
 Print Assumptions C10_junk_spai0_apply_x.
 
-(* --- Ruge-Stuben (CoarsenProofs.v): after /repo 8cfa879 connect() writes every S.val cell *)
+(* --- Ruge-Stuben (CoarsenProofs.v): after /repo 7bd138f connect() writes every S.val cell *)
 Theorem C10_junk_rs_connect (S : Scalar) (eps eps_strong : S) (A : crs S) (j1 j2 : flags) :
   rs_connect eps eps_strong A j1 = rs_connect eps eps_strong A j2.
 Proof. exact (rs_connect_junk_independent eps eps_strong A j1 j2). Qed.
